@@ -5,9 +5,11 @@
    forms sample 1; [twoU_lab] is 2U of the relabelled data (pairs a>b count 2, a=b count 1);
    [count_le]/[count_eq] count labellings by 2U.  Model (Model/Udist.v, Model/GEChoose.v): [choose],
    [tiedA] (memoised A_k recurrence with its three leaves), [untied_p]/[untied_c], [udist_pmf]/[udist_cdf]. *)
-From Coq Require Import List ZArith QArith Qround.
+From Coq Require Import List ZArith QArith Qround Permutation Lia.
+(* the comparator first: its boolean [valid_T] must not shadow the Prop [valid_T] of Proofs/UdistLaws.v *)
+From MM Require Import Check.C02 Proofs.CheckC02.
 From MM Require Import Base.Num Base.GEComb Spec.Ucount Proofs.Ucount Model.GEChoose Model.Udist
-  Proofs.Udist Proofs.UdistTied Proofs.UdistTable Proofs.UdistLaws Proofs.UdistUntied Proofs.UdistCor.
+  Proofs.Udist Proofs.UdistTied Proofs.UdistTable Proofs.UdistLaws Proofs.UdistUntied Proofs.UdistCor Proofs.UtestSym Proofs.UdistSym.
 Import ListNotations.
 Local Open Scope Z_scope.
 
@@ -135,6 +137,60 @@ Theorem C02_mirror : forall {X} (cmp : X -> X -> comparison) z n w,
 Proof. exact @count_eq_mirror. Qed.
 Print Assumptions C02_mirror.
 
+(* The counts depend on the pool only through its tie vector: any two pools (any value types, any
+   comparisons) grouped by the same vector give the same counts; in particular the arrangement of the
+   pooled values is irrelevant *)
+Theorem C02_counts_depend_on_T_only : forall {X Y} (cmp : X -> X -> comparison) (cmp' : Y -> Y -> comparison) Tr z z' n w,
+  grouped cmp Tr z -> grouped cmp' Tr z' ->
+  count_le cmp z n w = count_le cmp' z' n w /\ count_eq cmp z n w = count_eq cmp' z' n w.
+Proof.
+  intros X Y cmp cmp' Tr z z' n w H H'.
+  exact (conj (eq_trans (count_le_cntS cmp Tr z n w H) (eq_sym (count_le_cntS cmp' Tr z' n w H')))
+              (eq_trans (count_eq_massS cmp Tr z n w H) (eq_sym (count_eq_massS cmp' Tr z' n w H')))).
+Qed.
+Print Assumptions C02_counts_depend_on_T_only.
+Theorem C02_pool_order_irrelevant : forall {X} (cmp : X -> X -> comparison) (z z' : list X) n w,
+  Permutation z z' -> count_le cmp z n w = count_le cmp z' n w /\ count_eq cmp z n w = count_eq cmp z' n w.
+Proof. intros X cmp z z' n w H. exact (conj (count_le_perm cmp z z' n w H) (count_eq_perm cmp z z' n w H)). Qed.
+Print Assumptions C02_pool_order_irrelevant.
+(* a tie vector that reads the same in both directions (in particular: no ties) gives a distribution
+   symmetric about n1 n2 / 2 — the fact behind the two-sided p-value of C01 *)
+Theorem C02_symmetric_palindromic : forall {X} (cmp : X -> X -> comparison), (forall a b, cmp b a = CompOpp (cmp a b)) ->
+  forall Tr z n w, grouped cmp Tr z -> rev Tr = Tr -> (n <= length z)%nat ->
+  count_eq cmp z n w = count_eq cmp z n (2 * Z.of_nat n * Z.of_nat (length z - n) - w) /\
+  count_le cmp z n w = C (length z) n - count_le cmp z n (2 * Z.of_nat n * Z.of_nat (length z - n) - w - 1).
+Proof.
+  intros X cmp Ha Tr z n w Hg Hp Hn.
+  exact (conj (count_eq_palin cmp Ha Tr z n w Hg Hp Hn) (count_le_palin cmp Ha Tr z n w Hg Hp Hn)).
+Qed.
+Print Assumptions C02_symmetric_palindromic.
+
+(* The same laws for UDist.PMF itself, with no pool in the statement (grid: u = w/2 with ties, integers without) *)
+Theorem C02_pmf_mirror_tied : forall N1 N2 T, valid_T N1 N2 T -> has_ties T = true -> forall w : Z,
+  (udist_pmf N1 N2 T (w # 2) == udist_pmf N2 N1 T (QN (N1 * N2) - (w # 2)))%Q.
+Proof. exact udist_pmf_mirror_tied. Qed.
+Print Assumptions C02_pmf_mirror_tied.
+Theorem C02_pmf_mirror_untied : forall N1 N2 T, (1 <= N1)%nat -> (1 <= N2)%nat -> has_ties T = false -> forall k : Z,
+  (udist_pmf N1 N2 T (inject_Z k) == udist_pmf N2 N1 T (inject_Z (Z.of_nat (N1 * N2) - k)))%Q.
+Proof. exact udist_pmf_mirror_untied. Qed.
+Print Assumptions C02_pmf_mirror_untied.
+Theorem C02_pmf_sums_to_one_tied : forall N1 N2 T, valid_T N1 N2 T -> has_ties T = true ->
+  (Qsum (map (fun w => udist_pmf N1 N2 T (w # 2)) (zrange 0 (2 * Z.of_nat N1 * Z.of_nat N2))) == 1)%Q.
+Proof. exact udist_pmf_sum_tied. Qed.
+Print Assumptions C02_pmf_sums_to_one_tied.
+Theorem C02_pmf_sums_to_one_untied : forall N1 N2 T, (1 <= N1)%nat -> (1 <= N2)%nat -> has_ties T = false ->
+  (Qsum (map (fun k => udist_pmf N1 N2 T (inject_Z k)) (zrange 0 (Z.of_nat (N1 * N2)))) == 1)%Q.
+Proof. exact udist_pmf_sum_untied. Qed.
+Print Assumptions C02_pmf_sums_to_one_untied.
+Theorem C02_pmf_symmetric_palindromic : forall N1 N2 T, valid_T N1 N2 T -> has_ties T = true -> forall w : Z, rev T = T ->
+  (udist_pmf N1 N2 T (w # 2) == udist_pmf N1 N2 T (QN (N1 * N2) - (w # 2)))%Q.
+Proof. exact udist_pmf_symmetric_palin. Qed.
+Print Assumptions C02_pmf_symmetric_palindromic.
+Theorem C02_pmf_symmetric_untied : forall N1 N2 T, (1 <= N1)%nat -> (1 <= N2)%nat -> has_ties T = false -> forall k : Z,
+  (udist_pmf N1 N2 T (inject_Z k) == udist_pmf N1 N2 T (inject_Z (Z.of_nat (N1 * N2) - k)))%Q.
+Proof. exact udist_pmf_symmetric_untied. Qed.
+Print Assumptions C02_pmf_symmetric_untied.
+
 (* The executable twins the correspondence check runs (whole distribution at once; index 2U with ties,
    index U without) are the same counts *)
 Theorem C02_table_counts_subsets : forall {X} (cmp : X -> X -> comparison) N1 N2 T z w,
@@ -149,6 +205,40 @@ Theorem C02_untied_table_counts_subsets : forall {X} (cmp : X -> X -> comparison
   cum_at (cumsum 0 (untied_table N1 N2)) k = count_le cmp z N1 (2 * k).
 Proof. exact @untied_table_counts_subsets. Qed.
 Print Assumptions C02_untied_table_counts_subsets.
+
+(* ---------- what an accepted verdict of check_C02 certifies ---------- *)
+(* check_C02 = parse (p_line02) then compare.  If the verdict is accepted (code 0 = ok; code 1 = borderline is
+   never produced by this check: there is no borderline window) then the decoded case
+   cs = (N1, N2, tnil, T, us, (lo, hi, st), status) satisfies [case_ok] (Proofs/CheckC02.v):
+   status = 0 (no call panicked, T not modified);  N1, N2 >= 1 and T is nil or a vector of >= 2 positive counts
+   summing to N1+N2;  Bounds() = (0, N1*N2) and Step() = 1/2 exactly;  and for EVERY pool z whose tie groups
+   (highest rank first) are rev T -- or N1+N2 distinct values when T has no ties -- and EVERY item
+   (u, PMF(u), CDF(u)) of the line, with w = floor(2u) (ties) resp. 2*floor(u) (no ties) and C = C(N1+N2,N1):
+     |CDF - count_le z N1 w / C| <= tol_prob (= 1e-10)  for every real u   (count_le: #subsets with 2U <= w),
+     CDF = 0 exactly for u < 0  and  CDF = 1 exactly for u >= N1*N2,
+     |PMF - count_eq z N1 w / C| <= tol_prob            for 0 <= u < N1*N2 + 1/2  (count_eq: #subsets with 2U = w),
+     PMF = 0 exactly                                     for u < 0 or u >= N1*N2 + 1/2.
+   (Without ties and at a non-integer u the code answers for floor(u); the property speaks about the attainable
+   points only, there w = 2u.)  The model's table functions do not occur: only observed numbers and Spec/Ucount.v. *)
+Theorem C02_check_ok_sound : forall line code tag pos diag (cs : case02),
+  check_C02 line = verdict code tag pos diag -> (code = 0 \/ code = 1)%Z ->
+  p_line02 line = Some (cs, []) -> case_ok cs.
+Proof. exact check_ok_sound. Qed.
+Print Assumptions C02_check_ok_sound.
+
+(* the hypothesis on p_line02 costs nothing: an accepted line always parses, completely *)
+Theorem C02_check_accepted_parses : forall line code tag pos diag,
+  check_C02 line = verdict code tag pos diag -> (code = 0 \/ code = 1)%Z -> exists cs, p_line02 line = Some (cs, []).
+Proof. exact check_accepted_parses. Qed.
+Print Assumptions C02_check_accepted_parses.
+
+(* with ties the PMF clause needs no case split: the comparison is against the count at every real u *)
+Theorem C02_check_pmf_tied_uniform : forall {X} (cmp : X -> X -> comparison) z N1 N2 tnil T u p oc,
+  tie_vector_ok N1 N2 tnil T -> grouped cmp (pool_shape N1 N2 T) z -> has_ties T = true ->
+  u_ok cmp z N1 N2 T (u, XFin p, oc) ->
+  (Qabs (p - inject_Z (count_eq cmp z N1 (Qfloor (2 * u))) / inject_Z (C (N1 + N2) N1)) <= tol_prob)%Q.
+Proof. exact @u_ok_tied_uniform. Qed.
+Print Assumptions C02_check_pmf_tied_uniform.
 
 (* ---------- non-vacuity ---------- *)
 (* the canonical ranked pool satisfies [grouped] for every tie vector; Nat.compare is antisymmetric *)
@@ -176,4 +266,37 @@ Example C02_untied_example :
   map (fun u => count_eq Nat.compare (rank_pool (ones 6)) 3 (2 * u)) (zrange 0 9) = [1; 1; 2; 3; 3; 3; 3; 2; 1; 1] /\
   untied_table 3 3 = [1; 1; 2; 3; 3; 3; 3; 2; 1; 1] /\
   Qred (udist_cdf 3 3 [] (7 # 2)) = (7 # 20)%Q /\ Qred (udist_cdf 3 3 [] (13 # 2)) = (4 # 5)%Q.
+Proof. vm_compute. repeat split; reflexivity. Qed.
+(* the hypotheses of the PMF-level laws are satisfiable: a tied palindromic and a tied non-palindromic vector; the
+   mirror law on the latter, evaluated *)
+Example C02_pmf_law_examples :
+  valid_T 3 2 [2; 1; 2]%nat /\ has_ties [2; 1; 2]%nat = true /\ rev [2; 1; 2]%nat = [2; 1; 2]%nat /\
+  valid_T 3 4 [2; 1; 3; 1]%nat /\ has_ties [2; 1; 3; 1]%nat = true /\
+  Qred (udist_pmf 3 4 [2; 1; 3; 1]%nat (5 # 2)) = Qred (udist_pmf 4 3 [2; 1; 3; 1]%nat (QN (3 * 4) - (5 # 2))) /\
+  has_ties [1; 1; 1]%nat = false /\ has_ties [] = false.
+Proof. unfold valid_T. vm_compute. repeat split; try reflexivity; try lia; repeat constructor. Qed.
+
+(* two accepted lines of a real run (harness output on /repo): UDist{2,3,T=[2,1,2]} at u = -0.5, 0, 1.5, 2.25, 3, 6,
+   6.5, 7 and UDist{2,2,nil} at u = -1, 0, 1.5, 2, 4, 4.5, 4.75; both parse completely and get verdict ok, so the
+   hypotheses of C02_check_ok_sound are satisfiable; and the pool hypothesis of case_ok is satisfiable by
+   C02_pool_exists *)
+Example C02_check_ok_example :
+  let l1 := [2; 2; 3; 0; 3; 2; 1; 2; 8;
+             0xbfe0000000000000; 0; 0;   0; 0x3fb999999999999a; 0x3fb999999999999a;
+             0x3ff8000000000000; 0x3fc999999999999a; 0x3fd3333333333333;
+             0x4002000000000000; 0; 0x3fd3333333333333;
+             0x4008000000000000; 0x3fd999999999999a; 0x3fe6666666666666;
+             0x4018000000000000; 0x3fb999999999999a; 0x3ff0000000000000;
+             0x401a000000000000; 0; 0x3ff0000000000000;   0x401c000000000000; 0; 0x3ff0000000000000;
+             0; 0x4018000000000000; 0x3fe0000000000000; 0]%Z in
+  let l2 := [2; 2; 2; 1; 0; 7;
+             0xbff0000000000000; 0; 0;   0; 0x3fc5555555555555; 0x3fc5555555555555;
+             0x3ff8000000000000; 0x3fc5555555555555; 0x3fd5555555555555;
+             0x4000000000000000; 0x3fd5555555555555; 0x3fe5555555555556;
+             0x4010000000000000; 0x3fc5555555555555; 0x3ff0000000000000;
+             0x4012000000000000; 0; 0x3ff0000000000000;   0x4013000000000000; 0; 0x3ff0000000000000;
+             0; 0x4010000000000000; 0x3fe0000000000000; 0]%Z in
+  check_C02 l1 = verdict V_OK 8 (-1) [] /\ check_C02 l2 = verdict V_OK 1 (-1) [] /\
+  (match p_line02 l1 with Some ((N1, N2, _, T, us, _, _), []) => (N1, N2, T, length us) = (2, 3, [2; 1; 2], 8)%nat | _ => False end) /\
+  (match p_line02 l2 with Some ((N1, N2, _, T, us, _, _), []) => (N1, N2, T, length us) = (2, 2, [], 7)%nat | _ => False end).
 Proof. vm_compute. repeat split; reflexivity. Qed.
